@@ -1,6 +1,7 @@
 /-
-The "good refs" invariant over every reachable state of histories WITHOUT foreign pods (`Inv2`):
-every pod object anywhere (server, pod cache, undelivered upserts) is the Job's and well-named; every
+The "good refs" invariant over every reachable state (`Inv2`; ALL actions, foreign pods included —
+since the repair of F22 no lookup reads a pod that is not controlled by the Job): every pod object
+anywhere (server, pod cache, undelivered upserts) that is controlled by the Job is well-named; every
 Job version anywhere has pairwise distinct, well-named refs and `createdTasks = |tasks|`.
 Hypothesis `WF2`: the Job's index hashes are pairwise distinct and contain no `-`.  Core Lean only.
 -/
@@ -162,7 +163,7 @@ theorem Inv2.micros {j0 jo : JobObj} {sp s s' : Sys} (hb : Base j0 s) (h : Inv2 
     have hbm := hb.micros hc hms
     exact Inv2.micro hbm.1 ih hbm.2 hwf hpsp hgsp (hd.trans hms.static.d.symm) hm
 
-/-! ### every action except foreign pods -/
+/-! ### every action -/
 
 theorem step_d (s : Sys) (a : Action) : (step s a).d = s.d := by
   cases a with
@@ -211,7 +212,9 @@ theorem step_d (s : Sys) (a : Action) : (step s a).d = s.d := by
 theorem PodOK2.kubelet {j0 : JobObj} {d : PIndex} {old p : PodObj} (h : PodOK2 j0 d old) (hk : KubeletOK old p) :
     PodOK2 j0 d p := by
   obtain ⟨k1, _, _, k4, k5, _, k7, k8, _, _⟩ := hk
-  exact ⟨k1.trans h.1, h.2.1.transfer k4 k8 k7, by rw [k5]; exact h.2.2⟩
+  intro ho
+  have h' := h (k1 ▸ ho)
+  exact ⟨h'.1.transfer k4 k8 k7, by rw [k5]; exact h'.2⟩
 
 theorem Inv2.afterDeliverPod {j0 : JobObj} {s : Sys} (h : Inv2 j0 s) : Inv2 j0 (deliverPod s) := by
   have hf := deliverPod_fields s
@@ -297,7 +300,7 @@ theorem Inv2.init {j0 : JobObj} (hwf : WF j0) (clock : Int) (cfg : ExecConfig) (
   · intro p hp; simp at hp
 
 theorem Inv2.step {j0 : JobObj} {s : Sys} (hb : Base j0 s) (h : Inv2 j0 s) (hwf : WF2 j0 s.d) (a : Action)
-    (hnf : noForeign s a) (hal : Allowed j0 s a) : Inv2 j0 (step s a) := by
+    (hal : Allowed j0 s a) : Inv2 j0 (step s a) := by
   cases a with
   | setFaults fs => exact h.of_subset rfl rfl rfl rfl rfl (fun _ h => h)
   | work =>
@@ -346,27 +349,32 @@ theorem Inv2.step {j0 : JobObj} {s : Sys} (hb : Base j0 s) (h : Inv2 j0 s) (hwf 
     · rw [hs]; exact h
     · exact h.jobWrite hs ((h.job c hc).of_status_eq rfl)
     · exact h.jobGone hs
-  | createForeign p => exact absurd hnf (by simp [noForeign])
+  | createForeign p =>
+    -- a pod that is not controlled by the Job is unconstrained
+    show Inv2 j0 (createForeignPod s p)
+    rcases createForeignPod_spec s p with hs | hs
+    · rw [hs]; exact h
+    · exact h.podAdd hs (fun ho => absurd ho hal)
 
-/-- `Inv2` holds in every state reachable without foreign pods -/
-theorem inv2_of_reach {ok : Sys → Action → Prop} (hok : ∀ s a, ok s a → noForeign s a) {j0 : JobObj} {s : Sys}
+/-- `Inv2` holds in every reachable state (all actions allowed) -/
+theorem inv2_of_reach {ok : Sys → Action → Prop} {j0 : JobObj} {s : Sys}
     (hr : Reach ok j0 s) (hwf : WF2 j0 s.d) : Inv2 j0 s := by
   induction hr with
   | init c cfg d hw => exact Inv2.init hw c cfg d
   | step a hr' hoka hal ih =>
     rw [step_d] at hwf
-    exact (ih hwf).step (base_of_reach hr') hwf a (hok _ a hoka) hal
+    exact (ih hwf).step (base_of_reach hr') hwf a hal
 
 theorem steps_d {ok : Sys → Action → Prop} {j0 : JobObj} {s s' : Sys} (hs : Steps ok j0 s s') : s'.d = s.d := by
   induction hs with
   | refl => rfl
   | step a _ _ _ ih => rw [step_d]; exact ih
 
-/-- what `sync` computes from the cached Job in a state reachable without foreign pods -/
-theorem sync_good_of_reach {ok : Sys → Action → Prop} (hok : ∀ s a, ok s a → noForeign s a) {j0 : JobObj} {s : Sys}
+/-- what `sync` computes from the cached Job in a reachable state -/
+theorem sync_good_of_reach {ok : Sys → Action → Prop} {j0 : JobObj} {s : Sys}
     (hr : Reach ok j0 s) (hwf : WF2 j0 s.d) (jo : JobObj) (sp : Sys) (hc : s.jobCache = some jo) (hf : Frame s sp) :
     Good j0 s.d jo.job ∧ GK j0 s.d jo.job (sync sp jo).2.1 := by
-  have hi := (inv2_of_reach hok hr hwf).frame hf
+  have hi := (inv2_of_reach hr hwf).frame hf
   have hcsp : sp.jobCache = some jo := hf.jobCache.trans hc
   have hjo := ((base_of_reach hr).seenOK jo (mem_seenVers_cache hc)).1
   have hg := hi.seen jo (mem_seenVers_cache hcsp)
